@@ -10,6 +10,7 @@ import (
 	corev1alpha1 "package-operator.run/apis/core/v1alpha1"
 	"package-operator.run/internal/packages/zzverif/checks"
 	"package-operator.run/internal/packages/zzverif/kmodel"
+	"package-operator.run/internal/packages/zzverif/osw"
 	"package-operator.run/internal/packages/zzverif/report"
 	"package-operator.run/internal/packages/zzverif/world"
 )
@@ -106,12 +107,18 @@ func historySystem(cp corev1alpha1.CollisionProtection, budget int, declare bool
 			w.MustCreate(world.NewObjectSet("own", []world.PhaseSpec{{Name: "p1", Objects: []corev1alpha1.ObjectSetObject{world.OCP(desired, cp)}}}, nil, prev...))
 			setRevision(w, ownKey, 2, nil)
 			w.Budget["third-party"] = budget
+			w.Budget["fault"] = 1
 			return w
 		},
 		Events: func(w *world.World) []world.Event {
 			evs := []world.Event{{Name: "reconcile:own", Apply: func(w *world.World) *world.Pass {
 				return w.Reconcile(world.CtrlObjectSet, nn, nil)
 			}}}
+			// one request of one pass is answered 409 or 500 without taking effect (the dry-run
+			// of the preflight included): whatever the pass does next, a refused object stays untouched
+			if w.S.Objs[objKey] != nil {
+				evs = append(evs, osw.FaultEvents(w, world.CtrlObjectSet, "own", []world.FaultKind{world.ConflictBefore, world.ErrBefore})...)
+			}
 			if w.Budget["third-party"] <= 0 {
 				return evs
 			}
@@ -212,6 +219,7 @@ func historySystem(cp corev1alpha1.CollisionProtection, budget int, declare bool
 			if !ok {
 				return nil
 			}
+			faulted := strings.HasPrefix(ev.Name, "fault:")
 			var out []world.Finding
 			bad := func(id, f string, a ...any) {
 				out = append(out, world.Finding{Monitor: "collision-protection", Identity: id, Message: fmt.Sprintf(f, a...)})
@@ -229,10 +237,10 @@ func historySystem(cp corev1alpha1.CollisionProtection, budget int, declare bool
 				if a == nil || kmodel.Digest(a.Content) != kmodel.Digest(b) {
 					bad("unpermitted-write", "adoption not permitted but the stored object changed")
 				}
-				if mustReport && (avail != "False" || reason != "CollisionDetected") {
+				if mustReport && !faulted && (avail != "False" || reason != "CollisionDetected") {
 					bad("refusal-not-reported", "refusal not reported: Available=%q/%q (pass error %v)", avail, reason, pass.Err)
 				}
-			} else {
+			} else if !faulted {
 				self := world.IdentOf(ownKey, own)
 				if a == nil || len(world.Controllers(a.Content, false)) != 1 || !world.ControlledBy(a.Content, false, self) {
 					bad("permitted-adoption-not-done", "adoption permitted but not carried out (pass error %v, Available=%s/%s)", pass.Err, avail, reason)
